@@ -28,30 +28,45 @@ def to_native(v):
     import numpy as np
     if isinstance(v, list) and len(v) == 2 and all(isinstance(x, int) and not isinstance(x, bool) for x in v):
         return v[0] / v[1]
-    if isinstance(v, dict) and "shape" in v and "cells" in v:
+    if isinstance(v, dict) and "shape" in v and "cells" in v and len(v) == 2:
         a = np.zeros(v["shape"], dtype="float64")
         for k, x in v["cells"].items():
             idx = tuple(int(i) for i in k.split(",")) if k else ()
-            a[idx] = to_native(x) if x is not None else 0.0
+            xv = to_native(x)
+            a[idx] = xv if isinstance(xv, (int, float)) else 0.0
         return a
+    if isinstance(v, dict) and "__tuple__" in v:
+        return tuple(to_native(x) for x in v["__tuple__"])
+    if isinstance(v, dict):
+        return {k: to_native(x) for k, x in v.items()}
     if isinstance(v, list):
         return [to_native(x) for x in v]
+    if v == "inf":
+        return float("inf")
     return v
 
 
+def safe_copy(v):
+    import numpy as np
+    if isinstance(v, np.ndarray):
+        return v.copy()
+    if isinstance(v, dict) or (hasattr(v, "items") and hasattr(v, "keys") and not isinstance(v, type)):
+        try:
+            return {k: safe_copy(x) for k, x in v.items()}
+        except Exception:
+            return v
+    if isinstance(v, tuple):
+        return tuple(safe_copy(x) for x in v)
+    if isinstance(v, list):
+        return [safe_copy(x) for x in v]
+    try:
+        return copy.deepcopy(v)
+    except Exception:
+        return v
+
+
 def generic_native(inputs):
-    """model inputs -> kwargs; dotted names 'rec.field' are gathered into dicts"""
-    out = {}
-    recs = {}
-    for k, v in inputs.items():
-        if "." in k:
-            r, f = k.split(".", 1)
-            recs.setdefault(r, {})[f] = to_native(v)
-        else:
-            out[k] = to_native(v)
-    for r, d in recs.items():
-        out[r] = d
-    return out
+    return {k: to_native(v) for k, v in inputs.items() if not k.startswith("__")}
 
 
 def resolve(target):
@@ -82,12 +97,9 @@ def run_case(contract, inputs, instance=""):
         kwargs = contract.native(generic_native(inputs), instance)
     else:
         kwargs = generic_native(inputs)
-    names = inputs.get("__argnames__")
-    if names and not inputs.get("__native__") and contract.native is None:
-        kwargs = {k: v for k, v in kwargs.items() if k in names}
     kwargs.pop("__argnames__", None)
     args_ns = contract.options.get("args_ns")
-    a = NS(args_ns(copy.deepcopy(kwargs)) if args_ns else copy.deepcopy(kwargs))
+    a = NS(args_ns(safe_copy(kwargs)) if args_ns else safe_copy(kwargs))
     for req in contract.requires:
         lab, fn = req[0], req[1]
         if len(req) > 2 and instance not in req[2]:
@@ -104,8 +116,12 @@ def run_case(contract, inputs, instance=""):
             fn_real = resolve(contract.target)
             result = fn_real(**kwargs)
     except Exception as e:
-        res["raised"] = f"{type(e).__name__}: {e}"
+        res["raised"] = f"{type(e).__name__}: {e}"[:600]
         tname = type(e).__name__
+        if tname in ("TypingError", "UnsupportedError", "LoweringError") and "TypingError" not in contract.raises:
+            res["harness_error"] = True
+            res["trace"] = traceback.format_exc()[-1500:]
+            return res
         allowed = None
         for k, cond in contract.raises.items():
             if k == tname or k in [c.__name__ for c in type(e).__mro__]:
@@ -138,7 +154,7 @@ def run_case(contract, inputs, instance=""):
 def verdict(res):
     """'fails' if the real code violates the contract on this input, 'holds', or 'inapplicable'
     (the input does not satisfy the precondition / the twin could not be evaluated)."""
-    if any(v is not True for v in res["requires"].values()):
+    if any(v is not True for v in res["requires"].values()) or res.get("harness_error"):
         return "inapplicable"
     if res["raised"] is not None:
         return "holds" if res["allowed_raise"] is True else "fails"
